@@ -38,7 +38,7 @@ def classify(pid, d):
 
 CLASSIFIERS = {}
 
-ALL_EXTRACTORS = ["Basic", "Message", "Conversion", "Session", "Service", "SigGrammar", "Value", "Reader", "Encoding", "GenReaders", "Endpoint"]
+ALL_EXTRACTORS = ["Basic", "Message", "Conversion", "Session", "Service", "SigGrammar", "Value", "Reader", "Encoding", "GenReaders", "Endpoint", "Stream"]
 
 
 def lean_string_list(path, name):
@@ -201,5 +201,24 @@ PROPS = {
             "closers and filters do not call back into the endpoint (the API documents this precondition)",
             "the 'consumer blocked' error reply is sent while holding the table lock: progress assumes the peer reads or the stream is closed",
         ],
+    },
+    "C10": {
+        "level": "proof",
+        "extract": ["Endpoint", "Message", "Stream"],
+        "rule": "N in {2,3,4,8,16} goroutines each Send K in {4,16,32,64} messages (payload 0 B - 350 kB, content a function "
+                "of the message id) through one sending endpoint over net.Pipe, unix://, tcp://, tcps:// (TLS) and "
+                "pipe:// (fd passing), via the repository's Listen/DialEndPoint or a Write-recording stream; the receiving "
+                "endpoint has three residue-class handlers and a catch-all; oracle: every header and payload intact, "
+                "each id exactly once, per-sender order, each recorded Write is the documented wire form of one whole "
+                "message, each handler received the filter of the arrival order; the observed arrival order and the "
+                "handlers' sequences are then decided by the model (acceptor + table machine); refused histories "
+                "(lost / duplicated / reordered / unknown message) are compared as well",
+        "assumptions": [
+            "one Write call of the transport is atomic with respect to other Write calls on the same connection "
+            "(net.Conn, tls.Conn, os.File and net.Pipe serialise writers with an internal lock)",
+            "goroutine scheduling is the Go runtime's: the harness samples schedules, the theorem covers all interleavings of whole Write calls",
+            "handler queues have room (capacity >= number of messages): a full queue drops by design (C17)",
+        ],
+        "timeout": {"quick": 600, "thorough": 3000},
     },
 }
